@@ -431,6 +431,7 @@ func runC14(c *Ctx) {
 	// exported methods: one critical section
 	ms := c.SSA.MethodSets.MethodSet(types.NewPointer(trk))
 	nExp := 0
+	trackerAcq := c.Acquires(funcs)
 	fc := c.newFresh()
 	for i := 0; i < ms.Len(); i++ {
 		sel := ms.At(i)
@@ -462,26 +463,43 @@ func runC14(c *Ctx) {
 		})
 		// helper calls that lock are caught by the re-acquire rule; a method that never locks is caught by the access rule
 		r.Add("R1", "one-section:"+c.FuncKey(fn), c.Pos(fn.Pos()), c.FuncKey(fn), "exported method is a single critical section", bad == "" && nLock <= 1, fmt.Sprintf("%d Lock sites; Lock after Unlock at %q", nLock, bad))
-		// exported methods must not call other exported (locking) methods before/after their own section: two sections
+		// every acquisition event of the method (a Lock of its own, or an awaited call into a function that takes the
+		// tracker mutex) must be the only one on its path: two events are two critical sections, and other callers
+		// can observe or change the state in between
+		var events []ssa.Instruction
 		funcInstrs(fn, func(in ssa.Instruction) {
-			cs, ok := in.(*ssa.Call)
-			if !ok || cs.Call.StaticCallee() == nil {
+			if op, ok := c.lockOpOf(in); ok {
+				if op.Obj == lock && op.Method == "Lock" && !op.Deferred {
+					events = append(events, in)
+				}
 				return
 			}
-			cal := cs.Call.StaticCallee()
-			if rn := recvNamed(cal); rn == trk && cal != fn && nLock > 0 {
-				acq := false
-				funcInstrs(cal, func(x ssa.Instruction) {
-					if o, ok := c.lockOpOf(x); ok && o.Obj == lock && o.Method == "Lock" {
-						acq = true
-					}
-				})
-				if acq && ls.Held(in, lock) == 0 {
-					r.Add("R1", "split-section:"+c.FuncKey(fn)+":"+cal.Name(), c.InstrPos(in), c.FuncKey(fn), "exported method does all its work in one critical section", false,
-						"calls locking method "+cal.Name()+" outside its own critical section: check and act are separately locked")
+			cs, ok := in.(ssa.CallInstruction)
+			if !ok || kindName(cs) == "go" {
+				return
+			}
+			for _, e := range c.Callees(cs) {
+				if e.Callee != nil && trackerAcq[e.Callee][lock] {
+					events = append(events, in)
+					break
 				}
 			}
 		})
+		isEvent := map[ssa.Instruction]bool{}
+		for _, e := range events {
+			isEvent[e] = true
+		}
+		for _, e := range events {
+			if _, d := e.(*ssa.Defer); d {
+				continue
+			}
+			for x := range ReachFrom(e, false, nil) {
+				if isEvent[x] {
+					r.Add("R1", "split-section:"+c.FuncKey(fn), c.InstrPos(x), c.FuncKey(fn), "exported method does all its work in one critical section", false,
+						"the tracker mutex is taken at "+c.InstrPos(e)+" and again at "+c.InstrPos(x)+" (directly or in a callee): the method is not one atomic step")
+				}
+			}
+		}
 		// R2
 		sig := fn.Signature
 		for ri := 0; ri < sig.Results().Len(); ri++ {
